@@ -3,6 +3,7 @@ IsolatedGPGEnvironment.refresh_keys() with real gpg, a substituted `requests` mo
 and a loopback HKP server; every gpg invocation and HTTP request is logged as one event and the
 final keyring is read back with plain gpg.  No hook in gemato: the environment class is subclassed
 here and `gemato.openpgp.requests` is a module attribute."""
+import hashlib
 import io
 import os
 import random
@@ -13,8 +14,7 @@ from urllib.parse import parse_qs, urlparse
 from . import gpgenv
 
 ADDR = {'a': 'alice@example.com', 'a2': 'alice2@example.com', 'b': 'bob@example.org'}
-BODY = 'TIMESTAMP 2024-01-01T00:00:00Z\nDATA a.txt 3 SHA256 ' \
-       'ba7816bf8f01cfad414140de5dae2223b00361a396177a9cb410ff61f20015ad\n'
+BODY = 'TIMESTAMP 2024-01-01T00:00:00Z\nDATA a.txt 3 SHA256 %s\n' % hashlib.sha256(b'abc').hexdigest()
 
 
 def _genkey(h, uid, past=False):
@@ -241,6 +241,42 @@ def run_scenario(args):
     finally:
         op.requests = saved
         env.close()
+    # the same scenario through the command line (`gemato verify -K keyfile` refreshes unless -R is given):
+    # a tree whose top-level Manifest is signed by A
+    cli = {'ran': False, 'exit': 0, 'end': '', 'left': 0}
+    if beh.get('cli'):
+        import shutil
+        import tempfile
+        from . import tlc
+        base = tlc.scratch_dir('rfcli')
+        old_tmp = tempfile.tempdir
+        try:
+            tree = os.path.join(base, 'tree')
+            os.makedirs(tree)
+            with open(os.path.join(tree, 'a.txt'), 'wb') as f:
+                f.write(b'abc')
+            with open(os.path.join(tree, 'Manifest'), 'w') as f:
+                f.write(mat['signed'][phys['A']])
+            kf = os.path.join(base, 'key.bin')
+            with open(kf, 'wb') as f:
+                f.write(keyfile)
+            tmpd = os.path.join(base, 'tmp')
+            os.makedirs(tmpd)
+            tempfile.tempdir = tmpd
+            _HKP['keys'].clear()
+            if beh['ks']['up']:
+                for k, ans in beh['ks']['m'].items():
+                    if ans['kind'] == 'keys':
+                        _HKP['keys'][fpr[k]] = b''.join(blob(b) for b in ans['blobs'])
+            op.requests = FakeRequests(table, [], rng) if beh['req'] else None
+            argv = ['verify', '-K', kf, '--keyserver', addr] + ([] if beh['wkd'] else ['--no-wkd']) + [tree]
+            obs = gem.run_cli(argv)
+            cli = {'ran': True, 'exit': obs['status'] if obs['status'] is not None else -1, 'end': obs['end'],
+                   'left': len(os.listdir(tmpd))}
+        finally:
+            op.requests = saved
+            tempfile.tempdir = old_tmp
+            shutil.rmtree(base, ignore_errors=True)
     for e in events:
         e.setdefault('a', '')
         e.setdefault('k', '')
@@ -252,6 +288,6 @@ def run_scenario(args):
            'serve': dict((a, {'kind': x['kind'], 'blobs': list(x['blobs'])}) for a, x in beh['serve'].items()),
            'ks': {'up': beh['ks']['up'], 'm': dict((k, {'kind': x['kind'], 'blobs': list(x['blobs'])})
                                                    for k, x in beh['ks']['m'].items())},
-           'events': events, 'result': result, 'ring': ring, 'trust': trust, 'accept': accept,
+           'events': events, 'result': result, 'ring': ring, 'trust': trust, 'accept': accept, 'cli': cli,
            'model': {'result': beh['result'], 'ring': beh['ring'], 'trust': sorted(beh['trust'])}}
     return rec
